@@ -20,7 +20,7 @@ fn witness_cases(seed: u64) -> Vec<MuxCase> {
             for (pi, pc) in [plain.clone(), frag.clone()].into_iter().enumerate() {
                 let up = plan(&sizes, w, (k as u8 + w) % 3, &[8192]);
                 let down = plan(&sizes, w.min(1), (k as u8 + w + 1) % 3, &[1000, 70000]);
-                v.push(MuxCase { seed: seed ^ (k as u64 * 31 + w as u64 * 7 + pi as u64), streams: vec![(up, down)], c2s: pc.clone(), s2c: pc, scheme: None, sched_p: 0.0, inline_first: w == 0, locator: (usize::MAX, v.len()), concurrent_opens: false, half_close: vec![], eager_server: false });
+                v.push(MuxCase { seed: seed ^ (k as u64 * 31 + w as u64 * 7 + pi as u64), streams: vec![(up, down)], c2s: pc.clone(), s2c: pc, scheme: None, sched_p: 0.0, inline_first: w == 0, locator: (usize::MAX, v.len()), concurrent_opens: false, half_close: vec![], eager_server: false, stall: None });
             }
         }
     }
@@ -81,7 +81,7 @@ pub fn run(ctx: Ctx) -> Report {
 pub fn meta() -> CheckMeta {
     CheckMeta {
         level: "exploration",
-        rule: "each case = one client/server Session pair over two seeded MemPipes (capacity, write/read fragmentation, spurious Pending), 1-8 streams, per stream and direction a chunk-size sequence from a boundary-heavy pool (0,1,7,8,8192,16384,65535,65536,70000,131072,200000,...), one of 3 submission paths and 3 read paths, optional random padding scheme and random sched-point yields; in about a quarter of the streams one side ends its direction (FIN) after its last chunk and the other side writes its data only after that FIN has been processed (a FIN ends one direction only: the open direction must still deliver every byte); every byte read is compared online with the position-addressable pattern written at that offset; completeness and 'nothing more' are checked at quiescence under virtual time. distinct_nontrivial counts distinct (chunk sequences, APIs, pipe configs) whose transport fragments frames or that contain a chunk above one frame. End to end: real Client -> real Server with its default TCP handler -> loopback target; uploads of 1 byte to 6 MB (thorough 20 MB) in chunks of 1000-200000 bytes through write_data_frame, ended by a FIN on the stream / by closing the session right after the last write returned / by dropping the whole client, towards a target that starts reading at once or after 400 ms: the target must receive exactly the uploaded bytes (length and FNV hash). In 30% of the cases with sequential opens the server side starts writing on a stream the moment the stream appears, while the client may still be inside open_stream for it or for a later one (a peer that greets on connect).".into(),
+        rule: "each case = one client/server Session pair over two seeded MemPipes (capacity, write/read fragmentation, spurious Pending), 1-8 streams, per stream and direction a chunk-size sequence from a boundary-heavy pool (0,1,7,8,8192,16384,65535,65536,70000,131072,200000,...), one of 3 submission paths and 3 read paths, optional random padding scheme and random sched-point yields; in about a quarter of the streams one side ends its direction (FIN) after its last chunk and the other side writes its data only after that FIN has been processed (a FIN ends one direction only: the open direction must still deliver every byte); every byte read is compared online with the position-addressable pattern written at that offset; completeness and 'nothing more' are checked at quiescence under virtual time. distinct_nontrivial counts distinct (chunk sequences, APIs, pipe configs) whose transport fragments frames or that contain a chunk above one frame. End to end: real Client -> real Server with its default TCP handler -> loopback target; uploads of 1 byte to 6 MB (thorough 20 MB) in chunks of 1000-200000 bytes through write_data_frame, ended by a FIN on the stream / by closing the session right after the last write returned / by dropping the whole client, towards a target that starts reading at once or after 400 ms: the target must receive exactly the uploaded bytes (length and FNV hash). In 30% of the cases with sequential opens the server side starts writing on a stream the moment the stream appears, while the client may still be inside open_stream for it or for a later one (a peer that greets on connect). In 15% of the cases the transport of one direction stops delivering at a random byte offset, stays open, and resumes 3-130 virtual seconds later: nothing may be lost, torn or misdelivered because of the wait.".into(),
         assumptions: vec!["tokio's paused clock only advances when every task is idle, so 'still waiting after 3600 virtual s' means blocked forever".into(), "streams are never closed in this workload (C08 covers closing)".into()],
         floors: vec![("bytes_compared", 1_000_000), ("witness_cases", 40), ("cases_with_chunk_above_65535", 5), ("cases_with_empty_chunk", 20), ("streams_with_one_direction_ended_first", 100), ("e2e_uploads_checked", 20)],
         exhaustive: false,
